@@ -325,6 +325,8 @@ def app_oracle(leaf):
         return None
     if s_.startswith("SynchronizeThreads("):
         return ("SY", True)
+    if s_.startswith("DoThreaded("):
+        return ("TH", True)
     if s_.startswith("NextFrame("):
         return ("NX", True)
     if s_.startswith("ProcessData("):
@@ -463,13 +465,12 @@ def check_workerrun_protocol(rep, F, wr):
     bad = {}
     n_sc = 0
     for sy in (True, False):
-        A = {"SY": sy, "PD": True}
+        A = {"SY": sy, "PD": True, "TH": True}
         tr = scenario_trace(fo, A, app_oracle, rel)
-        ops = [op_of(e) for e in tr]
+        # a mutex that is neither the reader mutex nor a ring mutex (e.g. one local to this call, which excludes nobody) is an operation of its
+        # own kind: it can never complete the required bracket, so the comparison below reports it
+        ops = [op_of(e).replace("unknown-mutex:", "other-mutex:") for e in tr]
         n_sc += 1
-        unk = [o for o in ops if o.startswith("unknown-mutex")]
-        if unk:
-            raise AnalysisBroken("Worker::Run: unrecognised mutex object(s) %s" % unk)
         body = ops[ops.index("ProcessData") + 1:] if "ProcessData" in ops else None
         if body is None:
             bad.setdefault("loop-on-processdata", ("Worker::Run does not call ProcessData", None))
